@@ -666,6 +666,18 @@ Section Completes.
       exists (t :: sched), s'. split; [econstructor; eauto|]. split; auto.
       intros [X|X]; [congruence|auto].
   Qed.
+
+  (* a member closes its first listener only after the latch has closed, i.e. after every member's
+     standard inputs are exhausted and no cyclical message is in flight (cancelled or not) *)
+  Theorem teardown_after_quiescence_l s i :
+    reach s0 s -> i < n -> 0 < nth i (st_closed s) 0 ->
+    sp_quiet (st_pool s) = true /\ quiescent s.
+  Proof.
+    intros R Hi Hc. pose proof (rI n np std Hn Hnp s R) as I.
+    pose proof (st_n_const n np std s R) as En.
+    assert (Q : sp_quiet (st_pool s) = true) by (eapply closed_quiet; eauto; lia).
+    split; auto. eapply quiet_quiescent; eauto.
+  Qed.
 End Completes.
 
 Lemma reach_run_rr s0 fuel : forall s, reach s0 s -> reach s0 (run_rr fuel s).
